@@ -1382,6 +1382,83 @@ def _inline_custom_loop(ck, L, specs, dist, calls, only, reqs, metas, conv=None)
             print("foreign:", info.get("foreign_ops"), "built:", info.get("built_ops"), "imports:", info.get("imports"))
 
 
+# ----------------------------------------------------------------------------- attribute histories (round 10b)
+HIST_ATTRS = {"hz_f": "float", "hz_r": "float", "alpha": "float", "k": "float",
+              "hz_n": "int", "axis": "int", "n": "int",
+              "hz_s": "string", "mode": "string", "t": "string",
+              "hz_fs": "floats", "scales": "floats", "gs": "floats",
+              "hz_ns": "ints", "axes": "ints", "ms": "ints"}
+HIST_CLASSES = [("HistA", "my.hist", 1), ("HistB", "other.hist", 2), ("HistA", "other.hist", 3)]
+
+
+def history_case(ck, env: Env, rng, stats, steps=None):
+    """custom operators of several classes / domains that share attribute NAMES, built one after the other in this
+    process with values that are == but serialise differently; every AttributeProto compared bit-exactly with what
+    was given to THAT node (harness/lib_attrhistory.py)."""
+    from harness import lib_attrhistory as H
+
+    np, A = env.np, env.A
+    Var = env.Var
+    akind = {"float": A.AttrFloat32, "int": A.AttrInt64, "string": A.AttrString, "floats": A.AttrFloat32s, "ints": A.AttrInt64s}
+    classes = {}
+    for nm, dom, ver in HIST_CLASSES:
+        Inputs = dataclasses.make_dataclass("Inputs", [("X", Var)], bases=(env.F.BaseInputs,))
+        Outputs = dataclasses.make_dataclass("Outputs", [("Y", Var)], bases=(env.F.BaseOutputs,))
+        Attributes = dataclasses.make_dataclass(
+            "Attributes", [(a, typing.Optional[akind[k]]) for a, k in HIST_ATTRS.items()], bases=(env.F.BaseAttributes,))
+        classes[f"{nm}@{dom}:{ver}"] = type(nm, (env.N.Node,), {
+            "op_type": env.N.OpType(nm, dom, ver), "Attributes": Attributes, "Inputs": Inputs, "Outputs": Outputs,
+            "infer_output_types": lambda self: {"Y": self.inputs.X.type}})
+    targets = [{"id": cid, "attrs": HIST_ATTRS} for cid in classes]
+    by_kind = {}
+    for a, k in HIST_ATTRS.items():
+        by_kind.setdefault(k, []).append(a)
+    if steps is None:
+        steps = H.plan(rng, by_kind, targets)
+    x = env.argument(env.ts.Tensor(np.float32, (2,)))
+    built = []
+
+    def attr_of(model, out_name, name):
+        for _ in range(4):  # a requested result is introduced through Identity nodes
+            nd = next((nd for nd in model.graph.node if out_name in nd.output), None)
+            if nd is None:
+                break
+            if nd.op_type == "Identity" and nd.domain in ("", "ai.onnx"):
+                out_name = nd.input[0]
+                continue
+            return next((a for a in nd.attribute if a.name == name), None)
+        raise LookupError(f"no custom node produces {out_name}")
+
+    def build_one(st, v):
+        cls = classes[st["t"]]
+        kw = {a: None for a in HIST_ATTRS}
+        kw[st["name"]] = akind[st["kind"]](v, st["name"])
+        y = cls(cls.Attributes(**kw), cls.Inputs(X=x)).outputs.Y
+        model = env.build({"x": x}, {"y": y})
+        ap = attr_of(model, "y", st["name"])
+        built.append((st, y))
+        return ap
+
+    def build_all():
+        model = env.build({"x": x}, {f"y{i}": y for i, (_, y) in enumerate(built)})
+        return [attr_of(model, f"y{i}", st["name"]) for i, (st, _) in enumerate(built)]
+
+    verdicts, n = H.run_history(np, env.onnx, steps, build_one, build_all)
+    stats["history_steps"] = stats.get("history_steps", 0) + len(steps)
+    stats["history_compared"] = stats.get("history_compared", 0) + n
+    dist = stats.setdefault("history_by_kind", {})
+    for st in steps:
+        dist[st["kind"]] = dist.get(st["kind"], 0) + 1
+    ck.count(("attr-history", len(steps)))
+    seen = set()
+    for i, phase, what in verdicts:
+        key = f"history:attr-{phase}"
+        if key in seen:
+            continue
+        seen.add(key)
+        ck.failure(key, what, {"kind": "attr-history", "steps": steps, "step": i})
+
+
 def run(ck: core.Check):
     from harness.props.c11 import inventory
 
@@ -1497,6 +1574,12 @@ def run(ck: core.Check):
     for position in ("top", "if", "twice"):
         for k in (2.5, -0.75):
             exec_case(ck, env, position, k, stats)
+    # histories of same-named attributes with ==-equal values (one process; placed last: uses the PRNG after everything else)
+    try:
+        for _ in range(ck.pick(2, 10)):
+            history_case(ck, env, rng, stats)
+    except Exception as e:  # noqa: BLE001
+        ck.broken("correspondence", "attribute histories not observable", f"{type(e).__name__}: {e}")
     # ---- correspondence
     try:
         outs = ck.driver().ask_many("C18", reqs)
@@ -1580,6 +1663,8 @@ def replay(ck: core.Check, doc) -> bool:
         compose_case(ck, env, fix(c["sig"]), c["position"], rng, [], c.get("v2"), c.get("deep_only"), c.get("untyped"))
     elif c["kind"] == "exec":
         exec_case(ck, env, c["position"], c["k"], stats)
+    elif c["kind"] == "attr-history":
+        history_case(ck, env, rng, stats, steps=c["steps"])
     elif c["kind"] == "reinfer":
         reinfer_case(ck, env, fix(c["sig"]), rng)
     elif c["kind"] == "inline-custom":
